@@ -118,6 +118,14 @@ RECIPES = [
     ("C08", "break", ["C08-R3"], "pyyeti/ode/solveunc.py", "                        D[:, i] += B * F1k\n                        V[:, i] += Bp * F1k", "                        D[:, i] += B * F1k\n                        V[:, i] += B * F1k", "add-on velocity coefficient"),
     ("C08", "break", ["C08-R4"], "pyyeti/ode/solveunc.py", "                tmp = B * (np.eye(self.ksize) - alpha * pc.Bp)", "                tmp = B * (np.eye(self.ksize) + alpha * pc.Bp)", "get_f2x sign"),
     ("C08", "break", ["C08-R2"], "pyyeti/ode/solveexp2.py", "                    D[:, i] = E_dd @ d0 + E_dv @ v0 + PQF[ksize:]\n                    V[:, i] = E_vd @ d0 + E_vv @ v0 + PQF[:ksize]\n                    if unc:", "                    D[:, i] = E_dd @ d0 + E_dv @ v0 + PQF[:ksize]\n                    V[:, i] = E_vd @ d0 + E_vv @ v0 + PQF[ksize:]\n                    if unc:", "SE2 generator halves"),
+    ("C08", "break", ["C08-R2c"], "pyyeti/ode/solveunc.py", "                        AF = A * (F0rb + 0.5 * F1rb)", "                        AF = A * (F0rb + F1rb)", "complex generator: rb ramp weight"),
+    ("C08", "break", ["C08-R2c"], "pyyeti/ode/solveunc.py", "                A = 1.5 * A", "                A = 1.0 * A", "complex generator: zero-order rb factor"),
+    ("C08", "break", ["C08-R2c"], "pyyeti/ode/solveunc.py", "                    AF = (1.5 * A) * rbforce[:, :-1]", "                    AF = (1.0 * A) * rbforce[:, :-1]", "complex batch: zero-order rb factor"),
+    ("C08", "break", ["C08-R2c"], "pyyeti/ode/solveunc.py", "            if order == 0:\n                Ae = Ae + Be", "            if order == 0:\n                Ae = Ae", "complex generator: zero-order elastic coefficient"),
+    ("C08", "break", ["C08-R3c"], "pyyeti/ode/solveunc.py", "                        AF = A * 0.5 * F1rb", "                        AF = A * F1rb", "complex generator add-on: rb displacement weight"),
+    ("C08", "break", ["C08-R3c"], "pyyeti/ode/solveunc.py", "                        yn = Be * w1", "                        yn = Ae * w1", "complex generator add-on: elastic coefficient"),
+    ("C08", "break", ["C08-R3c"], "pyyeti/ode/solveunc.py", "                flexr = (0.5 * pc.A) * flexr", "                flexr = pc.A * flexr", "_get_f2x_complex_unc: rb displacement flexibility"),
+    ("C08", "neutral", [], "pyyeti/ode/solveunc.py", "                        AF = A * (F0rb + 0.5 * F1rb)", "                        AF = A * (0.5 * F1rb + F0rb)", "complex generator: commuted sum"),
     # ---- C09
     ("C09", "break", ["C09-R1", "C09-R5"], "pyyeti/fdepsd.py", "        Count_[j, jj] = np.sum(count[pv])", "        Count_[jj, j] = np.sum(count[pv])", "task index axis"),
     ("C09", "break", ["C09-R5"], "pyyeti/fdepsd.py", "    ASV_[2, j] = np.var(resphist, ddof=1)", "    ASV_[2, j] = np.var(resphist, ddof=0)", "worker != serial"),
